@@ -12,6 +12,10 @@ mod c04;
 mod c05;
 mod c06;
 mod c07;
+mod c12;
+mod c13;
+mod c16;
+mod c17;
 mod gens;
 mod cmp;
 mod exec;
@@ -28,6 +32,10 @@ use std::time::Instant;
 fn dispatch_for(id: &str) -> Option<fn(&str, &serde_json::Value) -> Option<Outcome>> {
     Some(match id {
         "C04" => c04::dispatch,
+        "C12" => c12::dispatch,
+        "C17" => c17::dispatch,
+        "C13" => c13::dispatch,
+        "C16" => c16::dispatch,
         "C01" => c01::dispatch,
         "C03" => c03::dispatch,
         "C05" => c05::dispatch,
@@ -41,6 +49,10 @@ fn dispatch_for(id: &str) -> Option<fn(&str, &serde_json::Value) -> Option<Outco
 fn run_check(ctx: &Ctx) -> i32 {
     match ctx.property.as_str() {
         "C04" => c04::run(ctx),
+        "C12" => c12::run(ctx),
+        "C17" => c17::run(ctx),
+        "C13" => c13::run(ctx),
+        "C16" => c16::run(ctx),
         "C01" => c01::run(ctx),
         "C03" => c03::run(ctx),
         "C05" => c05::run(ctx),
